@@ -253,6 +253,22 @@ def audit(ctx, theorem_files, extra_grep_files=()):
         names_ok = [(f, n) for (f, n) in names if f in good]
     else:
         names_ok = names
+    # `#print axioms` (and leanchecker) depend only on the Lean sources: their output is cached under a digest of every project
+    # source file (generated data included), so an unchanged project is not re-elaborated on every run. A fresh checkout has no cache.
+    src_digest = project_digest(theorem_files) if ok else None
+    cache_path = os.path.join(LEAN, '.lake', 'audit', f'Audit_{ctx.pid}.cache.json')
+    cached = None
+    if src_digest:
+        try:
+            c = json.load(open(cache_path))
+            if c.get('digest') == src_digest and set(c.get('theorems', {})) == {n for _, n in names}:
+                cached = c
+        except (OSError, ValueError):
+            cached = None
+    if cached is not None:
+        ctx.proof['theorems'].update(cached['theorems'])
+        ctx.extra['axiom_audit'] = 'cached (project sources unchanged since the last full audit)'
+        names_ok = []
     if names_ok:
         os.makedirs(os.path.join(LEAN, '.lake', 'audit'), exist_ok=True)
         ap = os.path.join(LEAN, '.lake', 'audit', f'Audit_{ctx.pid}.lean')
@@ -275,7 +291,14 @@ def audit(ctx, theorem_files, extra_grep_files=()):
             ctx.proof['theorems'][n] = ax
     for f, n in names:
         ctx.proof['theorems'].setdefault(n, None)
-    if ctx.tier == 'thorough' and ok:
+    if src_digest and cached is None and all(ctx.proof['theorems'].get(n) is not None for _, n in names):
+        try:
+            atomic_write_json(cache_path, dict(digest=src_digest, theorems={n: ctx.proof['theorems'][n] for _, n in names}, leanchecker=None))
+        except OSError:
+            pass
+    if ctx.tier == 'thorough' and ok and cached is not None and cached.get('leanchecker') == 0:
+        ctx.extra['leanchecker'] = dict(modules=mods, exit=0, tail='cached (project sources unchanged since the last leanchecker run)')
+    elif ctx.tier == 'thorough' and ok:
         # independent re-check of the compiled modules with the toolchain's leanchecker
         try:
             p = subprocess.run(['lake', 'env', 'leanchecker'] + mods, cwd=LEAN, capture_output=True, text=True, timeout=1800)
@@ -283,6 +306,14 @@ def audit(ctx, theorem_files, extra_grep_files=()):
             if p.returncode != 0:
                 ok = False
                 ctx.proof['build_log'] = 'leanchecker rejected: ' + (p.stdout + p.stderr)[-2000:]
+            elif src_digest:
+                try:
+                    c = json.load(open(cache_path))
+                    if c.get('digest') == src_digest:
+                        c['leanchecker'] = 0
+                        atomic_write_json(cache_path, c)
+                except (OSError, ValueError):
+                    pass
         except subprocess.TimeoutExpired:
             ctx.extra['leanchecker'] = dict(modules=mods, exit='timeout')
     disc = [n for n, ax in ctx.proof['theorems'].items() if ax is not None and set(ax) <= ALLOWED_AXIOMS]
@@ -472,6 +503,30 @@ def sweep_stale_private_drivers():
                     pass
     except OSError:
         pass
+
+
+def project_digest(theorem_files):
+    """digest of every Lean source of the project (models, proofs, property files, drivers, generated data, lakefile) + toolchain"""
+    import hashlib
+    h = hashlib.sha256()
+    h.update(('\n'.join(sorted(theorem_files))).encode())
+    for root in ('NumqiModel', 'NumqiProofs', 'NumqiProps', 'Driver'):
+        for dp, dn, fn in sorted(os.walk(os.path.join(LEAN, root))):
+            dn.sort()
+            for f in sorted(fn):
+                if f.endswith('.lean'):
+                    pth = os.path.join(dp, f)
+                    h.update(os.path.relpath(pth, LEAN).encode()); h.update(open(pth, 'rb').read())
+    for f in ('lakefile.toml', 'lake-manifest.json'):
+        try:
+            h.update(open(os.path.join(LEAN, f), 'rb').read())
+        except OSError:
+            pass
+    try:
+        h.update(subprocess.run(['lean', '--version'], capture_output=True, text=True, timeout=60).stdout.encode())
+    except Exception:
+        pass
+    return h.hexdigest()
 
 
 def generated_digest():
